@@ -54,8 +54,8 @@ RE_ARR = re.compile(r'^<<"ARRIVALS", "(.*)">>$')
 
 def l1_part(ctx):
     vf.build_hkv()
-    r = vf.mc_run(ctx, "ratebound", "Admission", {"Steps": {0, 100, 199, 200, 201, 1000}}, {"Rps": 5, "Burst": 3, "MaxT": 1400 if ctx.quick else 2400},
-                  invariants=["RateBound"], timeout=600, workers=4)
+    r = vf.mc_run(ctx, "ratebound", "Admission", {"Steps": {0, 100, 199, 200, 201, 1000}}, {"Rps": 5, "Burst": 3, "MaxT": 1200 if ctx.quick else 1600},   # measured: 1400 -> 9.4M states, 1600 -> 37M (131 s), 1800 -> > 100M
+                  invariants=["RateBound"], timeout=900, workers=4 if ctx.quick else vf.NCPU)
     vf.mc_expect_ok(ctx, r, "Admission RateBound")
     depth, num = (8, 150) if ctx.quick else (14, 3000)
     g = vf.mc_run(ctx, "admgen", "AdmissionGen", {"Gaps": {0, 1, 199, 200, 201, 499, 500, 1000, 3000}, "Targets": {"own", "g1", "g2", "none"}}, {"Depth": depth},
